@@ -26,6 +26,8 @@ func c15Patterns() []ref.Pat {
 		rep(A, 2, 2), rep(A, 2, 3), seq(rep(A, 2, 2), B), rep(seq(A, B), 1, -1), seq(alt(A, B), C), seq(A, alt(B, C)), seq(A, rep(alt(B, C), 1, -1)),
 		alt(A, B), alt(seq(A, B), C), ref.PPermute{Items: []ref.Pat{A, B}}, seq(ref.PPermute{Items: []ref.Pat{A, B}}, C), seq(A, rep(seq(B, C), 0, 1)),
 		seq(rep(A, 1, -1), rep(B, 1, -1)), seq(A, rep(alt(B, C), 0, -1), D), rep(A, 3, 3), seq(A, rep(B, 1, 2), C),
+		// bounded ranges with at least two optional repetitions
+		rep(A, 1, 3), seq(A, rep(B, 1, 3), C), seq(rep(A, 0, 2), B), rep(seq(A, B), 1, 3), rep(A, 2, 4),
 	}
 }
 
